@@ -55,6 +55,27 @@ impl<'a> BufferReader<'a> {
     }
 }
 
+// RFC 7541 §5.1 prefix integer at the head of `s` with an N-bit prefix (concrete definition and
+// that the real `decode_integer` computes it: Kani p_qpack_decode_integer_n*)
+enum PintRes {
+    Fin,
+    Overflow,
+    Val { flags: u8, value: usize, len: int },
+}
+uninterp spec fn pint_result(n: int, s: Seq<u8>) -> PintRes;
+
+// result of `decode_string` on the unread bytes `s` (RFC 7541 §5.2 string literal: length prefix
+// integer, optional Huffman coding, UTF-8)
+enum StrRes {
+    Fail { e: DecodingError },
+    Val { text: Seq<char>, len: int },
+}
+uninterp spec fn str_result(n: int, s: Seq<u8>) -> StrRes;
+
+// RFC 9204 Appendix A (the table itself: Kani p_qpack_static_table_is_rfc9204)
+uninterp spec fn static_name(i: int) -> Seq<char>;
+uninterp spec fn static_value(i: int) -> Seq<char>;
+
 spec fn is_suffix(s: Seq<u8>, of: Seq<u8>) -> bool {
     s.len() <= of.len() && s == of.skip(of.len() - s.len())
 }
@@ -71,29 +92,52 @@ struct HeaderMap {
     m: std::collections::HashMap<String, String>,
 }
 
+impl HeaderMap {
+    uninterp spec fn view(&self) -> Map<Seq<char>, Seq<char>>;
+}
+
 #[verifier::external_body]
-fn header_map_new() -> HeaderMap {
+fn header_map_new() -> (r: HeaderMap)
+    ensures r@ == Map::<Seq<char>, Seq<char>>::empty(),
+{
+    unimplemented!()
+}
+
+// HashMap::insert (+ str::to_string): insert or overwrite
+#[verifier::external_body]
+fn header_map_insert_strs(h: &mut HeaderMap, k: &str, v: &str)
+    ensures final(h)@ == old(h)@.insert(k@, v@),
+{
     unimplemented!()
 }
 
 #[verifier::external_body]
-fn header_map_insert_strs(h: &mut HeaderMap, k: &str, v: &str) {
+fn header_map_insert_str_string(h: &mut HeaderMap, k: &str, v: String)
+    ensures final(h)@ == old(h)@.insert(k@, v@),
+{
     unimplemented!()
 }
 
 #[verifier::external_body]
-fn header_map_insert_str_string(h: &mut HeaderMap, k: &str, v: String) {
-    unimplemented!()
-}
-
-#[verifier::external_body]
-fn header_map_insert_strings(h: &mut HeaderMap, k: String, v: String) {
+fn header_map_insert_strings(h: &mut HeaderMap, k: String, v: String)
+    ensures final(h)@ == old(h)@.insert(k@, v@),
+{
     unimplemented!()
 }
 
 // assumed: httlib-huffman decoder, slice::to_vec, String::from_utf8 (total functions on their input)
 #[verifier::external_body]
 fn huffman_decode(src: &[u8], dst: &mut Vec<u8>) -> (r: Result<(), ()>) {
+    unimplemented!()
+}
+
+// C11 allocation bound: every buffer the string decoder reserves is bounded by the number of input
+// bytes it was given (`limit` = unread bytes at entry), whatever length the peer announces
+#[verifier::external_body]
+fn vec_with_capacity_bounded(n: usize, Ghost(limit): Ghost<nat>) -> (r: Vec<u8>)
+    requires n <= limit,
+    ensures r@.len() == 0,
+{
     unimplemented!()
 }
 
@@ -125,25 +169,145 @@ proof fn lemma_skip_is_suffix(s: Seq<u8>, n: int)
 struct StaticTable;
 
 impl StaticTable {
-    // Kani: p_qpack_static_table_is_rfc9204 (Some iff index < 99)
-    #[verifier::external_body]
-    fn lookup_field(index: usize) -> (r: Option<(&'static str, &'static str)>)
-        ensures r is Some <==> index < 99,
-    {
-        unimplemented!()
+// Kani: p_qpack_static_table_is_rfc9204 (Some iff index < 99, the row is RFC 9204 Appendix A's).
+// The SIGNATURE is taken from the source, so that a changed index type is seen by the callers.
+//@ extract wtransport-proto/src/qpack.rs >> impl StaticTable >> fn lookup_field
+//@ attr #[verifier::external_body]
+//@ bodyless
+//@ ensures
+//@ | r is Some <==> index < 99,
+//@ | r matches Some(kv) ==> kv.0@ == static_name(index as int) && kv.1@ == static_value(index as int)
+//@ nocanary
+//@ end
+}
+
+// ---- reference interpreter of an encoded field section (RFC 9204 §4.5) -----------------------------
+// Field lines, one after the other, until the input is exhausted: indexed field line (static
+// only), literal with static name reference, literal with literal name; dynamic-table and
+// post-base forms are refused (the endpoint advertises a zero-capacity table); an index outside
+// the 99-entry static table is an error; later lines overwrite earlier ones with the same name.
+spec fn ref_lines(s: Seq<u8>, m: Map<Seq<char>, Seq<char>>) -> Result<Map<Seq<char>, Seq<char>>, DecodingError>
+    decreases s.len(),
+{
+    if s.len() == 0 {
+        Ok(m)
+    } else {
+        let b = s[0];
+        if b & 0x80 == 0x80 {
+            if b & 0x40 == 0 {
+                Err(DecodingError::DynamicNotSupported)
+            } else {
+                match pint_result(6, s) {
+                    PintRes::Fin => Err(DecodingError::UnexpectedFin),
+                    PintRes::Overflow => Err(DecodingError::IntegerOverflow),
+                    PintRes::Val { flags, value, len } => if value >= 99 {
+                        Err(DecodingError::IndexNotfound)
+                    } else if 1 <= len <= s.len() {
+                        ref_lines(s.skip(len), m.insert(static_name(value as int), static_value(value as int)))
+                    } else {
+                        Err(DecodingError::UnexpectedFin)
+                    },
+                }
+            }
+        } else if b & 0xc0 == 0x40 {
+            if b & 0x10 == 0 {
+                Err(DecodingError::DynamicNotSupported)
+            } else {
+                match pint_result(4, s) {
+                    PintRes::Fin => Err(DecodingError::UnexpectedFin),
+                    PintRes::Overflow => Err(DecodingError::IntegerOverflow),
+                    PintRes::Val { flags, value, len } => if value >= 99 {
+                        Err(DecodingError::IndexNotfound)
+                    } else if 1 <= len <= s.len() {
+                        match str_result(7, s.skip(len)) {
+                            StrRes::Fail { e } => Err(e),
+                            StrRes::Val { text, len: len2 } => if 1 <= len2 <= s.skip(len).len() {
+                                ref_lines(s.skip(len).skip(len2), m.insert(static_name(value as int), text))
+                            } else {
+                                Err(DecodingError::UnexpectedFin)
+                            },
+                        }
+                    } else {
+                        Err(DecodingError::UnexpectedFin)
+                    },
+                }
+            }
+        } else if b & 0xe0 == 0x20 {
+            match str_result(3, s) {
+                StrRes::Fail { e } => Err(e),
+                StrRes::Val { text: k, len } => if 1 <= len <= s.len() {
+                    match str_result(7, s.skip(len)) {
+                        StrRes::Fail { e } => Err(e),
+                        StrRes::Val { text: v, len: len2 } => if 1 <= len2 <= s.skip(len).len() {
+                            ref_lines(s.skip(len).skip(len2), m.insert(k, v))
+                        } else {
+                            Err(DecodingError::UnexpectedFin)
+                        },
+                    }
+                } else {
+                    Err(DecodingError::UnexpectedFin)
+                },
+            }
+        } else {
+            Err(DecodingError::DynamicNotSupported)
+        }
+    }
+}
+
+// the whole field section: Required Insert Count (8-bit prefix), Delta Base (7-bit prefix) - both
+// read and ignored - then the field lines
+spec fn ref_decode(s: Seq<u8>) -> Result<Map<Seq<char>, Seq<char>>, DecodingError> {
+    match pint_result(8, s) {
+        PintRes::Fin => Err(DecodingError::UnexpectedFin),
+        PintRes::Overflow => Err(DecodingError::IntegerOverflow),
+        PintRes::Val { flags, value, len } => if 1 <= len <= s.len() {
+            match pint_result(7, s.skip(len)) {
+                PintRes::Fin => Err(DecodingError::UnexpectedFin),
+                PintRes::Overflow => Err(DecodingError::IntegerOverflow),
+                PintRes::Val { flags: f2, value: v2, len: len2 } => if 1 <= len2 <= s.skip(len).len() {
+                    ref_lines(s.skip(len).skip(len2), Map::<Seq<char>, Seq<char>>::empty())
+                } else {
+                    Err(DecodingError::UnexpectedFin)
+                },
+            }
+        } else {
+            Err(DecodingError::UnexpectedFin)
+        },
     }
 }
 
 struct Decoder;
 
 impl Decoder {
-    // Kani: p_qpack_decode_integer_n{3,4,6,7,8}: a value consumes 1..=11 octets, an error leaves a
-    // suffix of the input (the reader only moves forward)
+    // Kani: p_qpack_decode_integer_n{3,4,6,7,8}: on EVERY byte string the result is the RFC 7541 §5.1
+    // reference (`pint_result`): value + flags + exact consumption (1..=11 octets), UnexpectedFin on
+    // truncation, IntegerOverflow beyond usize / 10 continuation octets; the reader only moves forward
     #[verifier::external_body]
     fn decode_integer<const N: usize>(bytes_reader: &mut BufferReader<'_>) -> (r: Result<(u8, usize), DecodingError>)
         ensures
-            is_suffix(final(bytes_reader).remaining(), old(bytes_reader).remaining()),
-            r is Ok ==> final(bytes_reader).remaining().len() < old(bytes_reader).remaining().len(),
+            match pint_result(N as int, old(bytes_reader).remaining()) {
+                PintRes::Fin => r matches Err(DecodingError::UnexpectedFin) && is_suffix(final(bytes_reader).remaining(), old(bytes_reader).remaining()),
+                PintRes::Overflow => r matches Err(DecodingError::IntegerOverflow) && is_suffix(final(bytes_reader).remaining(), old(bytes_reader).remaining()),
+                PintRes::Val { flags, value, len } => r == Ok::<(u8, usize), DecodingError>((flags, value))
+                    && 1 <= len <= old(bytes_reader).remaining().len()
+                    && final(bytes_reader).remaining() == old(bytes_reader).remaining().skip(len),
+            },
+    {
+        unimplemented!()
+    }
+
+    // `decode_string` as seen by `decode`: a deterministic function of (N, unread bytes) - its
+    // result is NAMED `str_result` here; what is proved about the real body is the function below
+    // (only moves forward, makes progress, allocation bounded by the input). Assumed: purity.
+    #[verifier::external_body]
+    fn decode_string_fn<const N: usize>(bytes_reader: &mut BufferReader<'_>) -> (r: Result<String, DecodingError>)
+        ensures
+            match str_result(N as int, old(bytes_reader).remaining()) {
+                StrRes::Fail { e } => r matches Err(e2) && e2 == e && is_suffix(final(bytes_reader).remaining(), old(bytes_reader).remaining()),
+                StrRes::Val { text, len } => r matches Ok(st) && st@ == text
+                    && 1 <= len <= old(bytes_reader).remaining().len()
+                    && final(bytes_reader).remaining() == old(bytes_reader).remaining().skip(len),
+            },
     {
         unimplemented!()
     }
@@ -153,13 +317,14 @@ impl Decoder {
 //@ |    where
 //@ |        R: BytesReader<'a>,` => `fn decode_string<const N: usize>(bytes_reader: &mut BufferReader<'_>) -> Result<String, DecodingError>`
 //@ subst `Self::decode_integer::<N, R>(bytes_reader)?` => `Self::decode_integer::<N>(bytes_reader)?`
-//@ substw `httlib_huffman::decode( string_data, &mut string_dec, httlib_huffman::DecoderSpeed::OneBit, ) .map_err(|_| DecodingError::InvalidString)?;` => `huffman_decode(string_data, &mut string_dec).map_err(|_e: ()| -> (o: DecodingError) ensures o == DecodingError::InvalidString { DecodingError::InvalidString })?;`
-//@ subst `string_data.to_vec()` => `slice_to_vec(string_data)`
-//@ subst `String::from_utf8(string_data).map_err(|_| DecodingError::InvalidString)` => `string_from_utf8(string_data).map_err(|_e: ()| -> (o: DecodingError) ensures o == DecodingError::InvalidString { DecodingError::InvalidString })`
+//@ resub `httlib_huffman::decode\(\s*(\w+),\s*&mut (\w+),\s*httlib_huffman::DecoderSpeed::OneBit,?\s*\)` => `huffman_decode(\1, &mut \2)`
+//@ resub `\.map_err\(\|_\| DecodingError::InvalidString\)` => `.map_err(|_e: ()| -> (o: DecodingError) ensures o == DecodingError::InvalidString { DecodingError::InvalidString })`
+//@ resub `(\w+)\.to_vec\(\)` => `slice_to_vec(\1)`
+//@ resub `String::from_utf8\((\w+)\)` => `string_from_utf8(\1)`
+//@ resub `Vec::with_capacity\(([^)]+)\)` => `vec_with_capacity_bounded(\1, Ghost(s0.len()))`
 //@ prologue let ghost s0 = bytes_reader.remaining();
-//@ insert_after `Self::decode_integer::<N>(bytes_reader)?;` => `let ghost s1 = bytes_reader.remaining();`
-//@ insert_after `.ok_or(DecodingError::UnexpectedFin)?;` => `proof { lemma_skip_is_suffix(s1, string_len as int); lemma_suffix_trans(bytes_reader.remaining(), s1, s0); }`
-//@ insert_before `let mut string_dec = Vec::with_capacity(string_len);` => `proof { assert(string_len <= s0.len()); } // C11: the decoder never allocates more than the input it was given`
+//@ insert_after `Self::decode_integer::<N>(bytes_reader)?;` => `let ghost s1 = bytes_reader.remaining(); proof { if let PintRes::Val { flags, value, len } = pint_result(N as int, s0) { lemma_skip_is_suffix(s0, len); } }`
+//@ insert_after `.ok_or(DecodingError::UnexpectedFin)?;` => `proof { if string_len <= s1.len() { lemma_skip_is_suffix(s1, string_len as int); lemma_suffix_trans(bytes_reader.remaining(), s1, s0); } }`
 //@ ensures
 //@ | is_suffix(final(bytes_reader).remaining(), old(bytes_reader).remaining()),
 //@ | r is Ok ==> final(bytes_reader).remaining().len() < old(bytes_reader).remaining().len()
@@ -182,20 +347,23 @@ impl Decoder {
 //@ |    where
 //@ |        D: AsRef<[u8]>,` => `fn decode(data: &[u8]) -> Result<HeaderMap, DecodingError>`
 //@ subst `BufferReader::new(data.as_ref())` => `BufferReader::new(data)`
-//@ subst `Self::decode_integer::<8, _>` => `Self::decode_integer::<8>`
-//@ subst `Self::decode_integer::<7, _>` => `Self::decode_integer::<7>`
-//@ subst `Self::decode_integer::<6, _>` => `Self::decode_integer::<6>`
-//@ subst `Self::decode_integer::<4, _>` => `Self::decode_integer::<4>`
-//@ subst `Self::decode_string::<7, _>` => `Self::decode_string::<7>` x2
-//@ subst `Self::decode_string::<3, _>` => `Self::decode_string::<3>`
+//@ resub `Self::decode_integer::<(\d+), _>` => `Self::decode_integer::<\1>`
+//@ resub `Self::decode_string::<(\d+), _>` => `Self::decode_string_fn::<\1>`
 //@ subst `HashMap::new()` => `header_map_new()`
 //@ subst `headers.insert(key.to_string(), value.to_string());` => `header_map_insert_strs(&mut headers, key, value);`
 //@ subst `headers.insert(key.to_string(), value);` => `header_map_insert_str_string(&mut headers, key, value);`
 //@ subst `headers.insert(key, value);` => `header_map_insert_strings(&mut headers, key, value);`
-//@ loop 1 invariant true
+//@ insert_before `let mut headers` => `let ghost rest0 = buffer_reader.remaining();`
+//@ loop 1 invariant ref_decode(data@) == ref_lines(rest0, Map::<Seq<char>, Seq<char>>::empty()), ref_lines(buffer_reader.remaining(), headers@) == ref_lines(rest0, Map::<Seq<char>, Seq<char>>::empty())
 //@ loop 1 decreases buffer_reader.remaining().len()
-//@ ensures true
+//@ insert_before `match Self::decode_field_line_type(field)` => `proof { let b = field; assert((b & 0b0100_0000 == 0) == (b & 0x40 == 0)) by (bit_vector); assert((b & 0b0001_0000 == 0) == (b & 0x10 == 0)) by (bit_vector); assert(b & 0x80 == 0x80 ==> !(b & 0xc0 == 0x40) && !(b & 0xe0 == 0x20)) by (bit_vector); assert(b & 0xc0 == 0x40 ==> !(b & 0x80 == 0x80) && !(b & 0xe0 == 0x20)) by (bit_vector); assert(b & 0xe0 == 0x20 ==> !(b & 0x80 == 0x80) && !(b & 0xc0 == 0x40)) by (bit_vector); assert(b & 0xf0 == 0x10 ==> !(b & 0x80 == 0x80) && !(b & 0xc0 == 0x40) && !(b & 0xe0 == 0x20)) by (bit_vector); assert(b & 0xf0 == 0x00 ==> !(b & 0x80 == 0x80) && !(b & 0xc0 == 0x40) && !(b & 0xe0 == 0x20)) by (bit_vector); }`
+//@ ensures
+//@ | match ref_decode(data@) {
+//@ |     Ok(m) => r matches Ok(h) && h@ == m,
+//@ |     Err(e) => r matches Err(e2) && e2 == e,
+//@ | }
 //@ end
+
 }
 
 // ---- headers.rs `Headers::with_frame`: any decoding failure is QPACK_DECOMPRESSION_FAILED -----------
